@@ -196,7 +196,7 @@ def verify_function(repo, qual, con, types, contracts, specfuns=None, timeout_ms
         for ob in E.obligations:
             if only and only not in ob.name:
                 continue
-            r = discharge(ob, timeout_ms)
+            r = discharge(ob, timeout_ms, slice_first=bool(con.get("slice_first")))
             if trace and (r["time"] > 0.5 or r["verdict"] != "discharged"):
                 sys.stderr.write("[pyvc]   %s %s %.2fs\n" % (r["name"], r["verdict"], r["time"]))
             fr.obligations.append(r)
@@ -204,7 +204,7 @@ def verify_function(repo, qual, con, types, contracts, specfuns=None, timeout_ms
     return fr
 
 
-def discharge(ob, timeout_ms=10000):
+def discharge(ob, timeout_ms=10000, slice_first=False):
     t0 = time.time()
     if ob.info.get("trivial"):
         return dict(name=ob.name, kind=ob.kind, verdict="discharged", time=0.0, solver="simplify", model=None)
@@ -217,9 +217,25 @@ def discharge(ob, timeout_ms=10000):
         import pickle
         open("/tmp/pyvc_dump_%d.smt2" % len(ob.pc), "w").write(s.to_smt2())
         open("/tmp/pyvc_dump_goal_%d.txt" % len(ob.pc), "w").write(str(ob.goal))
-    s.set("timeout", min(timeout_ms, 4000))
-    r = s.check()
     solver = "z3"
+    r = z3.unknown
+    if slice_first and len(ob.pc) > 300:
+        # very large context of a contract that asks for it (`slice_first`: the calendar enumeration loops): try the
+        # symbol-closure slice FIRST (see stage 1c)
+        kept = slice_context(ob.pc, ob.goal)
+        if len(kept) < len(ob.pc):
+            s0 = z3.Solver()
+            s0.set("timeout", min(timeout_ms, 5000))
+            for c in kept:
+                s0.add(c)
+            s0.add(z3.Not(ob.goal))
+            if s0.check() == z3.unsat:
+                r = z3.unsat
+                s = s0
+                solver = "z3(context slice: %d of %d hypotheses)" % (len(kept), len(ob.pc))
+    if r == z3.unknown:
+        s.set("timeout", min(timeout_ms, 4000))
+        r = s.check()
     if r == z3.unknown:
         # stage 1b: relevance filter.  Quantified hypotheses that share no heap array / function symbol with the goal
         # (two rounds of closure) are dropped - dropping hypotheses only weakens the premises, so `unsat` stays sound.
@@ -237,6 +253,20 @@ def discharge(ob, timeout_ms=10000):
                 r = z3.unsat
                 s = s1
                 solver = "z3(relevance-filtered hypotheses)"
+    if r == z3.unknown and len(ob.pc) > 150 and not slice_first:
+        # stage 1c: symbol-closure slice of a very large context (the datetime theory instantiates ~100 ground calendar
+        # facts per instant).  Hub symbols (occurring in more than 1/8 of the hypotheses) do not propagate relevance.
+        kept = slice_context(ob.pc, ob.goal)
+        if len(kept) < len(ob.pc):
+            s1 = z3.Solver()
+            s1.set("timeout", min(timeout_ms, 6000))
+            for c in kept:
+                s1.add(c)
+            s1.add(z3.Not(ob.goal))
+            if s1.check() == z3.unsat:
+                r = z3.unsat
+                s = s1
+                solver = "z3(context slice: %d of %d hypotheses)" % (len(kept), len(ob.pc))
     if r == z3.unknown:
         # second configuration: deeper eager quantifier instantiation (chains of list/heap axioms); measured: queries
         # that time out with the default threshold are decided in seconds with it
@@ -325,6 +355,29 @@ def relevant(pc, goal, rounds=2):
                 new |= sy
         want = new
     return ground + [c for c, _ in quant if c.get_id() in kept_ids]
+
+
+def slice_context(pc, goal):
+    """hypotheses connected to the goal through non-hub symbols (fixpoint).  Dropping hypotheses is always sound."""
+    syms = [(c, {x for x in symbols_of(c) if not x.startswith(_GENERIC)}) for c in pc]
+    freq = {}
+    for _, sy in syms:
+        for x in sy:
+            freq[x] = freq.get(x, 0) + 1
+    hub = {x for x, n in freq.items() if n > max(20, len(pc) // 8)}
+    want = {x for x in symbols_of(goal) if not x.startswith(_GENERIC)} - hub
+    kept = set()
+    changed = True
+    while changed:
+        changed = False
+        for i, (c, sy) in enumerate(syms):
+            if i not in kept and (sy - hub) & want:
+                kept.add(i)
+                new = (sy - hub) - want
+                if new:
+                    want |= new
+                changed = True
+    return [c for i, (c, _) in enumerate(syms) if i in kept]
 
 
 _HQ = {}
